@@ -7,6 +7,7 @@ import (
 	"runtime"
 	"runtime/debug"
 	"sort"
+	"strconv"
 	"strings"
 	"time"
 
@@ -81,6 +82,8 @@ func classifyLP() string {
 			return "drop"
 		case strings.HasSuffix(fn, "c04.lpObserveBody"):
 			return actNone
+		case strings.Contains(fn, "(*idTimesLoader)"), strings.Contains(fn, "reloadSequencer"), strings.Contains(fn, "(*MmsTables).loadIdTimes"):
+			return "loader" // the sequencer's asynchronous id-time reload and its reading goroutines
 		case strings.HasSuffix(fn, ".deleteUnorderedFiles"), strings.HasSuffix(fn, ".deleteUnorderedFiles.func1"),
 			strings.Contains(fn, "(*mergeTool)."), strings.HasSuffix(fn, ".replaceMergedFiles"), strings.Contains(fn, "mergeOutOfOrder"),
 			strings.Contains(fn, "MergeOutOfOrder"), strings.HasSuffix(fn, "c04.lpMergeBody"):
@@ -1254,6 +1257,9 @@ func runLPHistory(c *hx.Ctx, r *hx.Rng, idx int) error {
 	sh.DetachFromCompactor()
 	d := &detRun{c: c, r: r, idx: idx, sh: sh, p: p, root: root, spec: lww{}, pendingRows: map[string]bool{}, flushFiles: map[string]map[string]bool{}, trace: c.Arg("trace", "") != ""}
 	d.prev = engine.VerifProtocolState{Flushed: map[string]bool{}, Orders: map[string][]string{}, OutOfOrders: map[string][]string{}}
+	wdDone := make(chan struct{})
+	defer close(wdDone)
+	go historyWatchdog(c, d, wdDone, wdLimit(c))
 	l := &lpRun{detRun: d, hiWater: 2, directed: -1}
 	if idx < 2*len(lpDirected) {
 		l.directed = idx % len(lpDirected)
@@ -1303,4 +1309,232 @@ func runLPHistory(c *hx.Ctx, r *hx.Rng, idx int) error {
 		c.Sample(fmt.Sprintf("lock-point history %d ops=%s tied=%v …%s", idx, d.kinds.String(), !d.untied, strings.Join(d.sched[from:], " ")))
 	}
 	return nil
+}
+
+// ---------------------------------------------------------------------------------------------
+// the sequencer's id-time loader as an actor
+//
+// After a restart the first write starts the asynchronous reload of the sequencer
+// (MmsTables.LoadSequencer -> reloadSequencer -> idTimesLoader.Load): one goroutine per data file
+// reads the file's (series, last time) pairs. The flush split (ordered / out-of-order) of every
+// later flush depends on what it loaded. History: a layout with several ordered files and an
+// out-of-order file; Close; reopen; the loader is the gated actor: its reading goroutines are
+// frozen at their first schedule point inside tsspFile.LoadIdTimes (or wherever `site` says) while
+// B - an out-of-order merge or a full compaction, which replace the files - runs to its end; then
+// the loader goes on, late rows (older than the series' last flushed time) are written and
+// flushed, both measurements are read and compared with the acknowledged writes, and a full
+// compaction runs over the result. Nothing of this history is compared with the model (a restart
+// is not a model step; the loader's steps are loaderRef / readView / release).
+func runLPReloadHistory(c *hx.Ctx, r *hx.Rng, idx int, bKind, site string) error {
+	root := engx.ScratchDir("c04lr")
+	defer os.RemoveAll(root)
+	p := newPauser(root)
+	p.lpMode = true
+	fileops.SetVerifObserver(p)
+	defer fileops.SetVerifObserver(nil)
+	engine.VerifSetFlushConcurrency(1)
+	sh, err := engine.VerifOpenShard(root, 1)
+	if err != nil {
+		return err
+	}
+	sh.DetachFromCompactor()
+	d := &detRun{c: c, r: r, idx: idx, sh: sh, p: p, root: root, spec: lww{}, pendingRows: map[string]bool{}, flushFiles: map[string]map[string]bool{}, trace: c.Arg("trace", "") != ""}
+	d.prev = engine.VerifProtocolState{Flushed: map[string]bool{}, Orders: map[string][]string{}, OutOfOrders: map[string][]string{}}
+	d.emit(fmt.Sprintf("open %d %s", idx, strings.Join(detMsts, ",")), "ok")
+	d.untied = true
+	d.kinds.WriteString("reload:")
+	wdDone := make(chan struct{})
+	defer close(wdDone)
+	go historyWatchdog(c, d, wdDone, wdLimit(c))
+	allSeries := func(t int) []engx.Row {
+		var rows []engx.Row
+		for s := 0; s < detSeriesPerMst*len(detMsts); s++ {
+			rows = append(rows, engx.Row{Mst: mstOfSeries(s), Series: s, T: t, Fields: map[string]string{"fi": genVal(r, "fi")}})
+		}
+		return rows
+	}
+	if err := d.write(allSeries(10), "setup"); err != nil {
+		return err
+	}
+	sh.FlushIndex()
+	sh.Flush()
+	nOrd := 2 + r.Intn(3)
+	for k := 1; k <= nOrd; k++ {
+		if err := d.write(allSeries(10+10*k), "setup"); err != nil {
+			return err
+		}
+		sh.Flush()
+	}
+	if err := d.write(allSeries(5), "setup"); err != nil { // an out-of-order file
+		return err
+	}
+	sh.Flush()
+	d.kinds.WriteString(fmt.Sprintf("%dord+ooo,restart,", nOrd+1))
+	d.sched = append(d.sched, "restart")
+	if perr := safeStack(func() { _ = sh.CloseShardFirst() }); perr != "" {
+		return fmt.Errorf("close before restart: %s", perr)
+	}
+	sh, err = engine.VerifOpenShard(root, 1)
+	if err != nil {
+		return err
+	}
+	sh.DetachFromCompactor()
+	d.sh = sh
+	defer func() { safeStack(func() { _ = sh.CloseShardFirst() }) }()
+	p.on = true
+
+	g := newLPGate("loader", 1, "~"+site)
+	p.mu.Lock()
+	p.lp = g
+	p.mu.Unlock()
+	unfreeze := func() {
+		p.mu.Lock()
+		if p.lp == g {
+			p.lp = nil
+			close(g.release)
+		}
+		p.mu.Unlock()
+	}
+	defer unfreeze()
+	// the first write after the restart starts the reload
+	if err := d.write(allSeries(10+10*(nOrd+1)), "after-restart"); err != nil {
+		return err
+	}
+	frozen := false
+	select {
+	case <-g.reached:
+		frozen = true
+	case <-time.After(3 * time.Second):
+	}
+	d.kinds.WriteString("w[L|" + bKind + "]")
+	if frozen {
+		d.pausePoints++
+		c.Count("lp:loader-frozen")
+		d.sched = append(d.sched, fmt.Sprintf("loader-frozen-at{%s}", g.stoppedAt))
+	} else {
+		c.Count("lp:loader-not-frozen")
+		d.sched = append(d.sched, "loader-ran-to-its-end")
+	}
+	b := &lpOp{kind: bKind, full: true, done: make(chan struct{})}
+	go func() { lpBody(sh, b); close(b.done) }()
+	done, timedOut := waitDoneOrBlocked(b)
+	if timedOut {
+		line := d.emit("note loader round", "ok")
+		d.viol(line, "deadlock", fmt.Sprintf("history %d: %s did not finish within 90 s while the id-time loader was stopped at %s", idx, b, g.stoppedAt))
+		return nil
+	}
+	if done {
+		d.sched = append(d.sched, b.String()+"-ran-to-its-end")
+		c.Count("lp:loader:B-in-window:" + bKind)
+	} else {
+		d.sched = append(d.sched, b.String()+"-blocked")
+		c.Count("lp:loader:B-blocked:" + bKind)
+	}
+	unfreeze()
+	d.sched = append(d.sched, "loader-resumed")
+	select {
+	case <-b.done:
+	case <-time.After(90 * time.Second):
+		line := d.emit("note loader round", "ok")
+		d.viol(line, "deadlock", fmt.Sprintf("history %d: %s did not finish within 90 s after the id-time loader was released", idx, b))
+		return nil
+	}
+	if b.perr != "" {
+		line := d.emit("note loader round", "ok")
+		d.viol(line, "panic", fmt.Sprintf("history %d: %s: %s", idx, b, panicSummary(b.perr)))
+	}
+	// let the reload finish
+	for i, calm := 0, 0; i < 2000 && calm < 5; i++ {
+		time.Sleep(time.Millisecond)
+		if quiescent() {
+			calm++
+		} else {
+			calm = 0
+		}
+	}
+	// late rows: older than every series' last flushed time, some of them overwriting
+	for _, t := range []int{7, 10 + 10*nOrd, 15} {
+		if err := d.write(allSeries(t), "late"); err != nil {
+			return err
+		}
+	}
+	d.sched = append(d.sched, "flush")
+	if perr := safeStack(func() { sh.Flush() }); perr != "" {
+		line := d.emit("note loader round", "ok")
+		d.viol(line, "panic", "flush of late rows: "+panicSummary(perr))
+	}
+	for _, ms := range detMsts {
+		d.query(ms, true, "after-reload")
+	}
+	if d.nviol > 0 {
+		// (a compaction over two ordered files that share a (series, time) panics in a scheduler
+		// goroutine - 'the time column is not ordered' - and takes the process down)
+		p.on = false
+		c.Case(fmt.Sprintf("lp:%d:%s", idx, d.kinds.String()), frozen)
+		return nil
+	}
+	d.sched = append(d.sched, "full-compaction")
+	var cerr error
+	if perr := safeStack(func() { cerr = sh.FullCompact() }); perr != "" {
+		line := d.emit("note loader round", "ok")
+		d.viol(line, "panic", "full compaction after the reload: "+panicSummary(perr))
+	}
+	_ = cerr
+	for _, ms := range detMsts {
+		d.query(ms, r.Bool(), "after-reload-compaction")
+	}
+	p.on = false
+	c.Case(fmt.Sprintf("lp:%d:%s", idx, d.kinds.String()), frozen)
+	if d.trace {
+		fmt.Fprintf(os.Stderr, "schedule of %d: %s\n", idx, strings.Join(d.sched, " "))
+	}
+	return nil
+}
+
+// historyWatchdog turns a history that does not end into a reported violation (with the
+// schedule so far and the goroutines that stand inside /repo) instead of a harness time-out.
+func historyWatchdog(c *hx.Ctx, d *detRun, done <-chan struct{}, limit time.Duration) {
+	select {
+	case <-done:
+		return
+	case <-time.After(limit):
+	}
+	buf := make([]byte, 8<<20)
+	buf = buf[:runtime.Stack(buf, true)]
+	fmt.Fprintf(os.Stderr, "history %d does not end; goroutines:\n%s\n", d.idx, buf)
+	var stuck []string
+	for _, blk := range strings.Split(string(buf), "\n\n") {
+		if !strings.Contains(blk, "github.com/openGemini/openGemini/engine") {
+			continue
+		}
+		lines := strings.Split(blk, "\n")
+		state := lines[0]
+		if i := strings.IndexByte(state, '['); i >= 0 {
+			state = strings.TrimSuffix(state[i:], ":")
+		}
+		var frames []string
+		for _, ln := range lines[1:] {
+			ln = strings.TrimSpace(ln)
+			if strings.HasPrefix(ln, "github.com/openGemini/openGemini/") && len(frames) < 4 {
+				if i := strings.LastIndexByte(ln, '('); i > 0 {
+					ln = ln[:i]
+				}
+				frames = append(frames, strings.TrimPrefix(ln, "github.com/openGemini/openGemini/"))
+			}
+		}
+		if len(stuck) < 12 {
+			stuck = append(stuck, state+" "+strings.Join(frames, " < "))
+		}
+	}
+	line := c.Emit("note history does not end", "ok")
+	d.viol(line, "deadlock", fmt.Sprintf("history %d (%s) did not end within %s; goroutines inside the engine: %s", d.idx, d.kinds.String(), limit, strings.Join(stuck, " || ")))
+	_ = c.Close()
+	os.Exit(0)
+}
+
+func wdLimit(c *hx.Ctx) time.Duration {
+	if v, err := strconv.Atoi(c.Arg("wd", "")); err == nil && v > 0 {
+		return time.Duration(v) * time.Second
+	}
+	return 240 * time.Second
 }
